@@ -2,3 +2,5 @@
 ; gcount / ghas (meaning of (rel.GenericSet).Count / Has on the boxed set): declared in 34_gset_decls.smt2, defined by
 ; axioms in 35_sets.smt2 (w-c01) in terms of the frozen set
 (declare-fun emptyTupleVal () Val)      ; the value of the package variable rel.EmptyTuple
+; isdirV(info): meaning of (fs.FileInfo).IsDir on a file-info value (ASSUMED pure: two calls on one value agree)
+(declare-fun isdirV (Val) Bool)
